@@ -2,6 +2,7 @@ import Ogen.ValidateModel_proof
 import Ogen.SecurityMask_proof
 import Ogen.FloatValidate_proof
 import Ogen.JsonAccept_proof
+import Ogen.BoundMerge_proof
 /-!
 # C03 — the server accepts a body exactly when it satisfies the schema (partial)
 
@@ -80,4 +81,13 @@ open JCodec in
 /-- `Validate()` of the decoded value says exactly what the keywords say about the document -/
 theorem validate_is_keywords (j : Json) (t : Ty) (v : Val) (hw : t.WF) (hu : UniqueKeys j)
     (h : JCodec.decode t j = some v) : JCodec.validate t v = true ↔ Constr t j := JCodec.validate_iff j t v hw hu h
+/-! ### allOf: numeric bounds of two members (`gen.mergeSchemes`; hook `gen.VerifMergeBounds`, driver tag `bmerge`) -/
+
+/-- **the merged bounds accept exactly the numbers that both members' bounds accept** — inclusive and exclusive
+    bounds in every combination, equal bounds, a flag without a bound -/
+theorem allOf_bounds_iff (u₁ l₁ u₂ l₂ : BoundM.Bnd) (x : Int) :
+    (BoundM.okUpper (BoundM.mergeUpper u₁ u₂) x ∧ BoundM.okLower (BoundM.mergeLower l₁ l₂) x) ↔
+      ((BoundM.okUpper u₁ x ∧ BoundM.okLower l₁ x) ∧ (BoundM.okUpper u₂ x ∧ BoundM.okLower l₂ x)) :=
+  BoundM.merge_iff u₁ l₁ u₂ l₂ x
+
 end C03
